@@ -104,7 +104,7 @@ def run_impl(h, stop_when_closed=True, after_event=None):
                                open_tids=list(r.open_tids), dev_ids={a: id(d) for a, d in r.devices.items()},
                                data_ids={a: id(r.protocol.data.get(connrun.ADDR_NAME[a])) for a in r.devices
                                          if connrun.ADDR_NAME[a] in r.protocol.data},
-                               gate_closed=bool(r.gate_waiting), fed=list(r.fed),
+                               gate_closed=bool(r.gate_waiting), fed=list(r.fed), rdepth=reconnect_depth(r),
                                rqsize=(r.read_queue().qsize() if r.read_queue() is not None else 0)))
             if after_event is not None:
                 after_event(r, i, e)
@@ -119,6 +119,18 @@ def run_impl(h, stop_when_closed=True, after_event=None):
     finally:
         r.finish()
     return segs, extras, info
+
+
+def reconnect_depth(r):
+    """await-chain depth of the task that runs the reconnect routine (0: none): the machine's back-off state is the SAME state
+    after every failed attempt, so the pending coroutine chain must be too"""
+    import asyncio
+
+    d = 0
+    for t in asyncio.all_tasks(r.loop):
+        if not t.done() and t not in r.own and getattr(getattr(t.get_coro(), "cr_code", None), "co_name", "") == "_reconnect":
+            d = max(d, len(connrun.coro_chain(t)))
+    return d
 
 
 def model_batch(hists):
